@@ -13,6 +13,7 @@ CONSTANTS
   HydCounts = {}
   ChargeToks <- Q_Few
   PrefixSet = {}
+  MaxPrefixes = 1
   SuffixSet = {"(aq)"}
   PrimeMarks = {}
   MaxPrimes = 0
